@@ -72,6 +72,10 @@ use crate::dp::{rand_bigint::UniformBigUint, Rational};
 ///
 /// [CKS20]: https://arxiv.org/pdf/2004.00010.pdf
 fn sample_bernoulli<R: Rng + ?Sized>(gamma: &Ratio<BigUint>, rng: &mut R) -> bool {
+    #[cfg(feature = "verif-hooks")]
+    if let Some(crate::verif_hooks::dp::Answer::Bool(b)) = crate::verif_hooks::dp::intercept(crate::verif_hooks::dp::Layer::Bernoulli(gamma.clone())) {
+        return b;
+    }
     let d = gamma.denom();
     assert!(!d.is_zero());
     assert!(gamma <= &Ratio::<BigUint>::one());
@@ -94,6 +98,10 @@ fn sample_bernoulli<R: Rng + ?Sized>(gamma: &Ratio<BigUint>, rng: &mut R) -> boo
 ///
 /// [CKS20]: https://arxiv.org/pdf/2004.00010.pdf
 fn sample_bernoulli_exp1<R: Rng + ?Sized>(gamma: &Ratio<BigUint>, rng: &mut R) -> bool {
+    #[cfg(feature = "verif-hooks")]
+    if let Some(crate::verif_hooks::dp::Answer::Bool(b)) = crate::verif_hooks::dp::intercept(crate::verif_hooks::dp::Layer::BernoulliExp1(gamma.clone())) {
+        return b;
+    }
     assert!(!gamma.denom().is_zero());
     assert!(gamma <= &Ratio::<BigUint>::one());
 
@@ -115,6 +123,10 @@ fn sample_bernoulli_exp1<R: Rng + ?Sized>(gamma: &Ratio<BigUint>, rng: &mut R) -
 ///
 /// [CKS20]: https://arxiv.org/pdf/2004.00010.pdf
 fn sample_bernoulli_exp<R: Rng + ?Sized>(gamma: &Ratio<BigUint>, rng: &mut R) -> bool {
+    #[cfg(feature = "verif-hooks")]
+    if let Some(crate::verif_hooks::dp::Answer::Bool(b)) = crate::verif_hooks::dp::intercept(crate::verif_hooks::dp::Layer::BernoulliExp(gamma.clone())) {
+        return b;
+    }
     assert!(!gamma.denom().is_zero());
     for _ in range_inclusive(BigUint::one(), gamma.floor().to_integer()) {
         if !sample_bernoulli_exp1(&Ratio::<BigUint>::one(), rng) {
@@ -132,6 +144,10 @@ fn sample_bernoulli_exp<R: Rng + ?Sized>(gamma: &Ratio<BigUint>, rng: &mut R) ->
 ///
 /// [CKS20]: https://arxiv.org/pdf/2004.00010.pdf
 fn sample_geometric_exp<R: Rng + ?Sized>(gamma: &Ratio<BigUint>, rng: &mut R) -> BigUint {
+    #[cfg(feature = "verif-hooks")]
+    if let Some(crate::verif_hooks::dp::Answer::Big(v)) = crate::verif_hooks::dp::intercept(crate::verif_hooks::dp::Layer::GeometricExp(gamma.clone())) {
+        return v;
+    }
     let (s, t) = (gamma.numer(), gamma.denom());
     assert!(!t.is_zero());
     if gamma.is_zero() {
@@ -168,6 +184,10 @@ fn sample_geometric_exp<R: Rng + ?Sized>(gamma: &Ratio<BigUint>, rng: &mut R) ->
 ///
 /// [CKS20]: https://arxiv.org/pdf/2004.00010.pdf
 fn sample_discrete_laplace<R: Rng + ?Sized>(scale: &Ratio<BigUint>, rng: &mut R) -> BigInt {
+    #[cfg(feature = "verif-hooks")]
+    if let Some(crate::verif_hooks::dp::Answer::Int(v)) = crate::verif_hooks::dp::intercept(crate::verif_hooks::dp::Layer::Laplace(scale.clone())) {
+        return v;
+    }
     let (s, t) = (scale.numer(), scale.denom());
     assert!(!t.is_zero());
     if s.is_zero() {
@@ -371,6 +391,42 @@ impl PureDpDiscreteLaplace {
     /// [DMNS06]: https://people.csail.mit.edu/asmith/PS/sensitivity-tcc-final.pdf
     pub fn create_distribution(&self, sensitivity: Rational) -> Result<DiscreteLaplace, DpError> {
         DiscreteLaplace::new(Rational(sensitivity.0 / &self.budget.epsilon.0))
+    }
+}
+
+/// Verification hook (feature `verif-hooks` only): direct access to each private sampler layer.
+#[cfg(feature = "verif-hooks")]
+pub mod verif {
+    use super::*;
+
+    /// `sample_bernoulli`
+    pub fn bernoulli<R: Rng + ?Sized>(gamma: &Ratio<BigUint>, rng: &mut R) -> bool {
+        sample_bernoulli(gamma, rng)
+    }
+    /// `sample_bernoulli_exp1`
+    pub fn bernoulli_exp1<R: Rng + ?Sized>(gamma: &Ratio<BigUint>, rng: &mut R) -> bool {
+        sample_bernoulli_exp1(gamma, rng)
+    }
+    /// `sample_bernoulli_exp`
+    pub fn bernoulli_exp<R: Rng + ?Sized>(gamma: &Ratio<BigUint>, rng: &mut R) -> bool {
+        sample_bernoulli_exp(gamma, rng)
+    }
+    /// `sample_geometric_exp`
+    pub fn geometric_exp<R: Rng + ?Sized>(gamma: &Ratio<BigUint>, rng: &mut R) -> BigUint {
+        sample_geometric_exp(gamma, rng)
+    }
+    /// `sample_discrete_laplace`
+    pub fn discrete_laplace<R: Rng + ?Sized>(scale: &Ratio<BigUint>, rng: &mut R) -> BigInt {
+        sample_discrete_laplace(scale, rng)
+    }
+    /// `sample_discrete_gaussian`
+    pub fn discrete_gaussian<R: Rng + ?Sized>(sigma: &Ratio<BigUint>, rng: &mut R) -> BigInt {
+        sample_discrete_gaussian(sigma, rng)
+    }
+    /// `UniformBigUint::new(low, high).sample(rng)`: uniform in `[low, high)`; `None` for an empty
+    /// range.
+    pub fn uniform<R: Rng + ?Sized>(low: &BigUint, high: &BigUint, rng: &mut R) -> Option<BigUint> {
+        UniformBigUint::new(low, high).ok().map(|u| u.sample(rng))
     }
 }
 
